@@ -131,7 +131,42 @@ Variable cli_font : text.
 Variable cli_maxlen : Z.
 Variable env_errors : bool.
 
-Definition pint (s : text) : Z := match go_parse_int s with Some v => v | None => 0%Z end.
+(* `num, _ := strconv.ParseInt(lit, 0, 64)`: the value on success, 0 on a syntax error and - the error being ignored - the
+   nearest int64 on a range error (ParseUint stops at the digit that overflows 64 bits and reports MaxUint64; ParseInt then
+   returns MaxInt64 / MinInt64). Found by the proof of FormatParams.v: an earlier version of the model answered 0 here. *)
+Fixpoint sat_digits (base : Z) (ds : text) (acc : Z) : option Z :=
+  match ds with
+  | [] => Some acc
+  | d :: r => match digit_val d with
+              | Some v => if (v <? base)%Z then
+                            let acc' := (acc * base + v)%Z in
+                            if (acc' >=? 18446744073709551616)%Z then Some 18446744073709551615%Z else sat_digits base r acc'
+                          else None
+              | None => None
+              end
+  end.
+Definition go_parse_int_sat (s : text) : Z :=
+  let '(neg, body) := match s with 45%N :: r => (true, r) | 43%N :: r => (false, r) | _ => (false, s) end in
+  let pre2 (a : N) := match body with 48%N :: x :: _ :: _ => (x =? a)%N | _ => false end in
+  let bare2 (a : N) := match body with [48%N; x] => (x =? a)%N | _ => false end in
+  let r := match body with
+           | [] => None
+           | _ =>
+             if bare2 120%N || bare2 88%N || bare2 98%N || bare2 66%N || bare2 111%N || bare2 79%N then None
+             else if pre2 120%N || pre2 88%N then sat_digits 16 (tl (tl body)) 0
+             else if pre2 98%N || pre2 66%N then sat_digits 2 (tl (tl body)) 0
+             else if pre2 111%N || pre2 79%N then sat_digits 8 (tl (tl body)) 0
+             else match body with
+                  | 48%N :: ((_ :: _) as ds) => sat_digits 8 ds 0
+                  | _ => sat_digits 10 body 0
+                  end
+           end in
+  match r with
+  | None => 0%Z
+  | Some un => if neg then (if (un >? 9223372036854775808)%Z then (-9223372036854775808)%Z else (- un)%Z)
+               else (if (un >=? 9223372036854775808)%Z then 9223372036854775807%Z else un)
+  end.
+Definition pint (s : text) : Z := go_parse_int_sat s.
 Definition named_params : list text := [t "fontId"; t "maxLineLength"; t "numLines"; t "cursorOverlapWidth"].
 Definition mem (x : text) (l : list text) : bool := existsb (text_eqb x) l.
 
